@@ -148,7 +148,8 @@ def rule_b(ctx, fns):
             rels = relations(cfg.facts_at(s))
             lst, idx = key(s.c[0].strip()), key(s.c[1].strip())
             # need: (index-1) < size, i.e. not (size < index) with index compared as unsigned (a negative index becomes huge)
-            cur = [p for p in f.params if p["n"] == "current_index"]
+            # the index parameter is the one the subscript is computed from: list[P - 1]
+            cur = [p for p in f.params if idx == "(- v%d 1)" % p["d"]]
             ck = "v%d" % cur[0]["d"] if cur else "?"
             ok = any(a == "%s.size()" % lst and op == ">=" and b == ck for a, op, b in rels) and idx == "(- %s 1)" % ck
             ab = any(b.aborts for b in cfg.blocks.values())
@@ -200,15 +201,15 @@ def rule_c(ctx, hfns):
         for lp in f.walk():
             if lp.k != "ForStmt":
                 continue
-            d = describe(lp)
+            d = describe(lp, names=False)
             if d is not None:
                 # express the bound through what the locals were initialised with
                 cond = lp.c[1].strip()
                 if cond.k == "BinaryOperator" and cond.op == "<" and len(cond.c) == 2:
-                    d["upper"] = "(- %s 1)" % key(cond.c[1].strip(), True, sub)
+                    d["upper"] = "(- %s 1)" % key(cond.c[1].strip(), False, sub)
             if d is None:
                 continue
-            uses = [m for m in lp.c[3].walk() if m.k == "CXXOperatorCallExpr" and m.op == "[]" and len(m.c) == 2 and key(m.c[0].strip(), True) in ["this." + v for v in PER_DATASET] and key(m.c[1].strip(), True) == d["var"]]
+            uses = [m for m in lp.c[3].walk() if m.k == "CXXOperatorCallExpr" and m.op == "[]" and len(m.c) == 2 and key(m.c[0].strip()) in ["this." + v for v in PER_DATASET] and key(m.c[1].strip()) == d["var"]]
             if not uses:
                 continue
             ok = d["upper"] in ("(- this.get_num_datasets() 1)",) and d["init"] == "0"
@@ -224,7 +225,7 @@ def rule_d(ctx, ifns, kfns):
         if f.body is None or not f.short.startswith("read_interfile_"):
             continue
         for c in f.calls():
-            if c.k == "CXXMemberCallExpr" and (c.callee or "").endswith("::parse") and "Header" in key(c.c[0], True) or (c.k == "CXXMemberCallExpr" and (c.callee or "").split("::")[-1] == "parse" and "hdr" in key(c.c[0], True)):
+            if c.k == "CXXMemberCallExpr" and (c.callee or "").split("::")[-1] == "parse" and c.c and ("Header" in (c.c[0].type or "") or "Header" in (c.callee or "")):
                 p = c.parent
                 used = p is not None and (p.k in ("UnaryOperator", "BinaryOperator", "CXXOperatorCallExpr", "VarDecl", "ReturnStmt") or (p.k == "IfStmt" and p.c and p.c[0] is c))
                 ctx.ob("C17.d-failures-propagate", f.qn + "(" + f.sig[:25] + ")", "parse-result@%d" % n, used, c.where(), "header parse result is tested" if used else "result of hdr.parse() dropped: a rejected header would be used")
@@ -255,7 +256,13 @@ def rule_e(ctx, fns):
         # what is stored and what is looked up is the standardised form
         pb = [c for c in f.calls() if (c.callee or "").endswith("push_back")]
         fk = [c for c in f.calls() if (c.callee or "").endswith("::find_in_keymap")]
-        ok = bool(pb) and "standardised_keyword" in key(pb[0], True) and bool(fk) and key(fk[0].call_args()[0], True) == "standardised_keyword"
+        # (data flow, not identifiers: what is pushed / looked up is standardise_keyword(<the keyword parameter>))
+        from engine.algebra import LocalDefs as _LD
+
+        _defs = _LD(f)
+        _sub = {d: _defs.single_def(d) for d in _defs.decl}
+        std = "this.standardise_keyword(v%d)" % f.params[0]["d"] if f.params else "?"
+        ok = bool(pb) and std in key(pb[0], False, _sub) and bool(fk) and key(fk[0].call_args()[0], False, _sub) == std
         ctx.ob("C17.e-keyword-normalisation", f.qn, "stores-standardised-form", ok, f.where(), "the standardised keyword is what is looked up and stored" if ok else "the raw keyword is stored or looked up")
     for f in byname.get("read_and_parse_line", [])[:1]:
         if not f.cfg_raw:
